@@ -900,6 +900,10 @@ func jsTransform(variant string) string {
 		body = "out.push(e); var d = NewEntityFrom(e, false, true, true); SetId(d, GetId(e) + \"-dup\"); out.push(d);"
 	case "create":
 		body = "out.push(e); var n = NewEntity(); SetId(n, GetId(e) + \"-new\"); SetProperty(n, s, \"of\", GetId(e)); out.push(n);"
+	case "append":
+		// the transform appends what it creates to the array it was given and returns that array
+		code := "function transform_entities(entities) { var s = GetNamespacePrefix(\"" + ExS + "\"); var k = entities.length; for (var i = 0; i < k; i++) { var n = NewEntity(); SetId(n, GetId(entities[i]) + \"-new\"); SetProperty(n, s, \"of\", GetId(entities[i])); entities.push(n); } return entities; }"
+		return base64.StdEncoding.EncodeToString([]byte(code))
 	}
 	code := "function transform_entities(entities) { var s = GetNamespacePrefix(\"" + ExS + "\"); var out = []; for (var i = 0; i < entities.length; i++) { var e = entities[i]; " + body + " } return out; }"
 	return base64.StdEncoding.EncodeToString([]byte(code))
@@ -912,10 +916,12 @@ func genC10(g *G, sc *Scenario, tier string, seed uint64) {
 	batch := 1 + (idx/15)%7
 	par := 1 + (idx/105)%8
 	k := idx / 840
-	variants := []string{"identity", "drop", "duplicate", "create"}
-	variant := variants[k%4]
-	jobType := []string{"incremental", "fullsync"}[(k/4)%2]
-	if k >= 8 {
+	// variants and pipeline types rotate with the cell index, so that a quick run (one pass over the box)
+	// meets all of them and 10 passes cover every cell with every variant and type
+	variants := []string{"identity", "drop", "duplicate", "create", "append"}
+	variant := variants[(idx+k)%5]
+	jobType := []string{"incremental", "fullsync"}[(idx/5+k/5)%2]
+	if k >= 10 {
 		// beyond the systematic box: sampled larger values
 		count = g.Range(15, 200)
 		batch = g.Range(1, 60)
